@@ -269,3 +269,39 @@ Proof.
   split; [reflexivity|]. split; [|vm_compute; reflexivity].
   eexists. split; [vm_compute; reflexivity|]. split; reflexivity.
 Qed.
+
+(* further non-vacuity instances: the parser after the unit { of the inputs {"a"1} , {1 , and after [ of [# *)
+Example ex_missing_colon :
+  let p := mkP (mkLx [123; 34; 97; 34; 49; 125; 0] 1 1) [1; 0] None false 0 in
+  trace 1 (json_init [123; 34; 97; 34; 49; 125]) = Some [((G_StartObject, Some (0, [123])), p)] /\
+  rejected_at p 4.
+Proof.
+  cbn zeta. split; [vm_compute; reflexivity|].
+  apply (rejects_missing_colon_proof _ [123] [] [] [34; 97; 34] [] [49; 125] [0]).
+  - repeat split.
+  - apply lead_plain_false; [constructor|reflexivity].
+  - reflexivity.
+  - exact (js_intro [97] (jc_plain 97 [] ltac:(lia) ltac:(lia) ltac:(lia) jc_nil)).
+  - constructor.
+  - reflexivity.
+  - cbn. lia.
+Qed.
+
+Example ex_nonstring_key :
+  let p := mkP (mkLx [123; 49; 0] 1 1) [1; 0] None false 0 in
+  trace 1 (json_init [123; 49]) = Some [((G_StartObject, Some (0, [123])), p)] /\ rejected_at p 1.
+Proof.
+  cbn zeta. split; [vm_compute; reflexivity|].
+  apply (rejects_nonstring_key_proof _ [123] [] [] [49] false [0]); try (cbn; lia); try reflexivity;
+    try (apply lead_plain_false; [constructor|reflexivity]); try (left; cbn; lia); repeat split.
+Qed.
+
+Example ex_illegal_byte :
+  let p := mkP (mkLx [91; 35; 0] 1 1) [3; 0] None false 0 in
+  trace 1 (json_init [91; 35]) = Some [((G_StartArray, Some (0, [91])), p)] /\ rejected_at p 1.
+Proof.
+  cbn zeta. split; [vm_compute; reflexivity|].
+  apply (error_at_illegal_byte_proof _ [91] [] [] 35 [] false 3); try reflexivity;
+    try (apply lead_plain_false; [constructor|reflexivity]);
+    try (unfold illegal_start, is_ws, is_digit; lia); repeat split.
+Qed.
